@@ -316,6 +316,8 @@ class TorchGraph:
                 t = t.permute(rev).contiguous().permute(rev)
             if lf["rg"]:
                 t.requires_grad_(True)
+                if lf.get("param"):
+                    t = torch.nn.Parameter(t.detach())  # a module parameter (same leaf semantics, another Python type)
             self.leaves.append(t)
             self.values[("l", i)] = t
         for j, node in enumerate(prog["nodes"]):
@@ -439,6 +441,8 @@ class _Builder:
         self.leaves.append({"shape": list(shape), "rg": bool(rg), "vals": _grid_vals(self.rng, numel(shape))})
         if len(shape) >= 2 and numel(shape) > max(shape) and self.rng.integers(0, 3) == 0:
             self.leaves[-1]["layout"] = "F"  # non-contiguous parameter
+        if rg and self.rng.integers(0, 4) == 0:
+            self.leaves[-1]["param"] = True  # torch.nn.Parameter
         self.env.append({"ref": ["l", i], "shape": tuple(shape), "rg": bool(rg), "deps": frozenset([i]) if rg else frozenset(),
                          "leaf": True, "anc": frozenset()})
         return self.env[-1]
